@@ -13,7 +13,9 @@
 
   §3 is about the isomorphism comparison *as it stands in /repo* (refuted, finding D22′); §4 is about the comparison after
   the repair handoff/repairs/d22/patch.diff (`circuitIsIsomorphic2`: every edge carries the roles of its register at both
-  ends) — for it the full statement is proved (`iso_sound`).  The harness probes which of the two the implementation under
+  ends) — for it the full statement is proved (`iso_sound`), and also its converse (`iso_complete`: the repaired comparison
+  decides exactly "equal up to a renaming of the registers within each type", before and after normalisation, and is an
+  equivalence relation; `dedup_exact`).  The harness probes which of the two the implementation under
   test is and compares it with the corresponding model functions.
 -/
 import GraphiqModel.Proofs.Compare
@@ -24,6 +26,9 @@ import GraphiqModel.Proofs.CompareRepairDirect
 import GraphiqModel.Proofs.CompareRepairEquiv
 import GraphiqModel.Proofs.CompareRepairComplete
 import GraphiqModel.Proofs.CompareRepairSearch
+import GraphiqModel.Proofs.CompareRepairExact
+import GraphiqModel.Proofs.CompareRepairLin
+import GraphiqModel.Proofs.CompareRepairEqv
 namespace Graphiq.C15
 open Graphiq Graphiq.Export Graphiq.Compare
 
@@ -443,6 +448,72 @@ theorem original_statements_hold_for_the_repaired_functions :
       rw [← renEq_flatC]
       exact hπ.renEq (flat_opOK _ _ (wellFormed_opOK k (hl k hkl))) (flat_opOK _ _ (wellFormed_opOK x (hl x hx)))
 
+/-- **completeness of the repaired `circuit_is_isomorphic`**: two well-formed circuits that are renamings of each other
+    register by register (`RenamedBy`: equal register counts, a type-preserving bijection `π` of the registers, and on
+    every register — quantum or classical — the same renamed operation sequence) are reported isomorphic, in whatever order
+    operations on different registers were appended.  (The renamed first circuit and the second differ by exchanges of
+    neighbours that share no register; such an exchange only exchanges two node ids of the DAG.) -/
+theorem iso_complete (c1 c2 : Circuit) (h1 : WellFormed c1) (h2 : WellFormed c2) (π : Wire → Wire) (h : RenamedBy π c1 c2) :
+    circuitIsIsomorphic2 c1 c2 = .ok true :=
+  h.reported (wellFormed_opOK c1 h1) (wellFormed_opOK c2 h2)
+
+/-- **the repaired `circuit_is_isomorphic` decides exactly "equal up to a renaming of the registers within each type"**
+    on well-formed circuits (`iso_sound` and `iso_complete` together): the comparison after the repair is neither too
+    coarse (the defect D22′) nor too fine -/
+theorem repaired_comparison_decides_renaming (c1 c2 : Circuit) (h1 : WellFormed c1) (h2 : WellFormed c2) :
+    circuitIsIsomorphic2 c1 c2 = .ok true ↔ ∃ π, RenamedBy π c1 c2 :=
+  iso2_exact c1 c2 (wellFormed_opOK c1 h1) (wellFormed_opOK c2 h2)
+
+/-- hence the answer depends on the second circuit only up to reordering operations that share no register: a circuit
+    with the same registers and the same operation sequence on every register gets the same answer -/
+theorem reordering_does_not_change_the_answer (c1 c2 c2' : Circuit) (h1 : WellFormed c1) (h2 : WellFormed c2)
+    (h2' : WellFormed c2') (hn : c2.ne = c2'.ne ∧ c2.np = c2'.np ∧ c2.nc = c2'.nc)
+    (hw : ∀ w, c2.ops.filter (touches w) = c2'.ops.filter (touches w)) :
+    circuitIsIsomorphic2 c1 c2 = .ok true → circuitIsIsomorphic2 c1 c2' = .ok true := by
+  intro h
+  obtain ⟨π, hπ⟩ := iso_sound c1 c2 h1 h2 h
+  exact iso_complete c1 c2' h1 h2' π
+    ⟨hπ.ne.trans hn.1, hπ.np.trans hn.2.1, hπ.nc.trans hn.2.2, hπ.into, hπ.inj, hπ.surj,
+      fun w hwW => (hw (π w)).symm.trans (hπ.wires w hwW)⟩
+
+/-- **the comparison the filters make decides exactly "the executed operations are equal up to a renaming of the
+    registers"**: after `unwrap_nodes` and `remove_identity` two well-formed circuits are reported isomorphic iff their
+    flattened operation lists (wrappers expanded in application order, identities dropped) are renamings of each other
+    register by register.  (The normalised DAG is no built DAG — node ids are no operation indices any more — so the
+    invariant carried through `insert_at` / `remove_op` also keeps a linear order of the operation nodes along which every
+    register path runs, and the absence of parallel edges with one key.) -/
+theorem filter_comparison_decides_renaming (c1 c2 : Circuit) (h1 : WellFormed c1) (h2 : WellFormed c2) :
+    isoNormalised2 c1 c2 = .ok true ↔ ∃ π, RenamedBy π (flatC c1) (flatC c2) :=
+  isoNorm2_exact c1 c2 (wellFormed_opOK c1 h1) (wellFormed_opOK c2 h2)
+
+/-- **`remove_redundant_circuits` with the repaired comparison keeps exactly one circuit of every class**: the result is a
+    sub-list of the input; every input circuit is kept or is (in its executed operations) a renaming of a kept one; and no
+    two kept circuits are renamings of each other -/
+theorem dedup_exact (l : List Circuit) (hl : ∀ c ∈ l, WellFormed c) :
+    (removeRedundant2 l).Sublist l ∧
+    (∀ x ∈ l, x ∈ removeRedundant2 l ∨ ∃ k ∈ removeRedundant2 l, ∃ π, RenamedBy π (flatC k) (flatC x)) ∧
+    (removeRedundant2 l).Pairwise (fun a b => ¬ ∃ π, RenamedBy π (flatC a) (flatC b)) :=
+  ⟨(dedup_sound l hl).1, (dedup_sound l hl).2, removeRedundant2_minimal l (fun c hc => wellFormed_opOK c (hl c hc))⟩
+
+/-- **the repaired comparison is an equivalence relation on well-formed circuits** — the model function itself, as
+    `compare(method="isomorphism")` calls it and as the filters call it after normalisation: reflexive, symmetric (the
+    inverse of a map that passes the check passes it, and the search is complete), transitive (by the exact
+    characterisation, renamings compose).  So "exactly one kept circuit per class" in `dedup_exact` is about classes. -/
+theorem repaired_comparison_is_an_equivalence :
+    (∀ c, WellFormed c → circuitIsIsomorphic2 c c = .ok true ∧ isoNormalised2 c c = .ok true) ∧
+    (∀ c1 c2, WellFormed c1 → WellFormed c2 →
+      (circuitIsIsomorphic2 c1 c2 = .ok true → circuitIsIsomorphic2 c2 c1 = .ok true) ∧
+      (isoNormalised2 c1 c2 = .ok true → isoNormalised2 c2 c1 = .ok true)) ∧
+    (∀ c1 c2 c3, WellFormed c1 → WellFormed c2 → WellFormed c3 →
+      (circuitIsIsomorphic2 c1 c2 = .ok true → circuitIsIsomorphic2 c2 c3 = .ok true → circuitIsIsomorphic2 c1 c3 = .ok true) ∧
+      (isoNormalised2 c1 c2 = .ok true → isoNormalised2 c2 c3 = .ok true → isoNormalised2 c1 c3 = .ok true)) :=
+  ⟨fun c h => comparison_is_reflexive c h,
+   fun c1 c2 h1 h2 => ⟨circuitIsIsomorphic2_symm c1 c2 (wellFormed_opOK c1 h1) (wellFormed_opOK c2 h2),
+     isoNormalised2_symm c1 c2 (wellFormed_opOK c1 h1) (wellFormed_opOK c2 h2)⟩,
+   fun c1 c2 c3 h1 h2 h3 =>
+    ⟨circuitIsIsomorphic2_trans c1 c2 c3 (wellFormed_opOK c1 h1) (wellFormed_opOK c2 h2) (wellFormed_opOK c3 h3),
+     isoNormalised2_trans c1 c2 c3 (wellFormed_opOK c1 h1) (wellFormed_opOK c2 h2) (wellFormed_opOK c3 h3)⟩⟩
+
 /-! ## Non-vacuity -/
 
 /-- H e0; CNOT e0→p0; W[H,P] p0; measure-and-reset e0→p0; identity -/
@@ -495,5 +566,18 @@ example :
 example : IsRenaming (wiresN 2 0 0) (fun w => if w = ⟨.e, 0⟩ then ⟨.e, 1⟩ else if w = ⟨.e, 1⟩ then ⟨.e, 0⟩ else w) ∧
     (⟨2, 0, 0, d22A.ops.map (renOp (fun w => if w = ⟨.e, 0⟩ then ⟨.e, 1⟩ else if w = ⟨.e, 1⟩ then ⟨.e, 0⟩ else w))⟩ : Circuit) = d22A' := by
   refine ⟨⟨?_, ?_, ?_⟩, by decide⟩ <;> decide
+
+/-- the hypotheses of `iso_complete` are met by a pair that is renamed *and* reordered: `H e0; measure e1→c0` against
+    `measure e0→c0; H e1` (emitters exchanged, and the two operations appended in the other order); the kernel evaluates
+    the model to `true` -/
+def reoA : Circuit := ⟨2, 0, 1, [.one .H e0, .meas e1 0]⟩
+def reoB : Circuit := ⟨2, 0, 1, [.meas e0 0, .one .H e1]⟩
+example : WellFormed reoA ∧ WellFormed reoB ∧ circuitIsIsomorphic2 reoA reoB = .ok true := by decide +kernel
+example : RenamedBy (fun w => if w = ⟨.e, 0⟩ then ⟨.e, 1⟩ else if w = ⟨.e, 1⟩ then ⟨.e, 0⟩ else w) reoA reoB := by
+  refine ⟨rfl, rfl, rfl, ?_, ?_, ?_, ?_⟩ <;> decide
+
+/-- the right-hand side of `filter_comparison_decides_renaming` is met by the re-bracketed demo pair (identity renaming) -/
+example : RenamedBy id (flatC demo) (flatC demo') := by
+  refine ⟨rfl, rfl, rfl, ?_, ?_, ?_, ?_⟩ <;> decide
 
 end Graphiq.C15
